@@ -69,6 +69,12 @@ class C10(C03):
                 ren = lambda p: [odd if comp == LAYER[-1] else comp for comp in p]
                 case["init"] = [dict(e, p=ren(e["p"])) for e in case["init"]]
                 case["dir"] = ren(LAYER)
+            if len(cases) % 8 == 6:
+                # a layer directory whose name contains the path-list separator (a legal file name)
+                odd = list(b"lay:er")
+                ren = lambda p: [odd if comp == LAYER[-1] else comp for comp in p]
+                case["init"] = [dict(e, p=ren(e["p"])) for e in case["init"]]
+                case["dir"] = ren(LAYER)
             cases.append(case)
         if tier == "thorough":
             for _ in range(1500):
